@@ -22,6 +22,6 @@ cdef class MulticastOutgoingQueue:
     cpdef void async_add(self, double now, cython.dict answers)
 
     @cython.locals(pending=AnswerGroup)
-    cdef void _remove_answers_from_queue(self, cython.dict answers)
+    cpdef void _remove_answers_from_queue(self, cython.dict answers)
 
     cpdef void async_ready(self)
